@@ -19,7 +19,7 @@ mod object;
 mod property;
 #[cfg(feature = "yuja_qmluic_verif")]
 pub mod verif_hook;
-mod xmlutil;
+pub(crate) mod xmlutil;
 
 pub use self::binding::*; // re-export
 pub use self::context::*; // re-export
@@ -41,6 +41,14 @@ pub fn build(
     diagnostics: &mut Diagnostics,
 ) -> Option<(UiForm, Option<UiSupportCode>)> {
     let program = diagnostics.consume_err(UiProgram::from_node(doc.root_node(), doc.source()))?;
+    if !xmlutil::is_xml_representable(doc.type_name()) {
+        // The type name (usually the file name) becomes the <class> of the form.
+        diagnostics.push(Diagnostic::error(
+            0..0,
+            "type name contains character which cannot be represented in XML",
+        ));
+        return None;
+    }
     let type_space = make_doc_module_space(doc, &program, base_ctx.type_map, diagnostics);
     let object_tree = ObjectTree::build(
         program.root_object_node(),
